@@ -305,3 +305,137 @@ func isRespondCall(c *Ctx, call ssa.CallInstruction) bool {
 	}
 	return false
 }
+
+// ---- discovery of the library's internal abstractions by shape, not by name ---------------------
+
+// libInterfaces: the named interface types declared in the library's packages.
+func (c *Ctx) libInterfaces() []*types.Named {
+	var out []*types.Named
+	for _, pk := range c.P.Pkgs {
+		sc := pk.Types.Scope()
+		for _, name := range sc.Names() {
+			tn, ok := sc.Lookup(name).(*types.TypeName)
+			if !ok {
+				continue
+			}
+			if n, ok := tn.Type().(*types.Named); ok {
+				if it, ok := n.Underlying().(*types.Interface); ok && it.NumMethods() > 0 {
+					out = append(out, n)
+				}
+			}
+		}
+	}
+	return out
+}
+
+// ifaceMethodTaking: the name of the interface's method that has a parameter of the given type ("" if none).
+func ifaceMethodTaking(it *types.Interface, paramType string) string {
+	for i := 0; i < it.NumMethods(); i++ {
+		sig := it.Method(i).Type().(*types.Signature)
+		for j := 0; j < sig.Params().Len(); j++ {
+			if ir.TypeStr(sig.Params().At(j).Type()) == paramType {
+				return it.Method(i).Name()
+			}
+		}
+	}
+	return ""
+}
+
+// dispatcherIface: the unexported interface through which transports hand decoded requests and notifications to the
+// protocol layer: it has a method taking *JSONRPCRequest and one taking *JSONRPCNotification, and an implementer whose
+// request method reaches the wire-method dispatch table.
+func (c *Ctx) dispatcherIface() *types.Named {
+	dr := c.dispatchReach()
+	for _, n := range c.libInterfaces() {
+		it := n.Underlying().(*types.Interface)
+		rm := ifaceMethodTaking(it, "*mcp.JSONRPCRequest")
+		nm := ifaceMethodTaking(it, "*mcp.JSONRPCNotification")
+		if rm == "" || nm == "" || n.Obj().Exported() {
+			continue
+		}
+		for _, T := range c.P.Implementers(it) {
+			if f := c.P.Method(T, rm); f != nil && dr[f] {
+				return n
+			}
+		}
+	}
+	return nil
+}
+
+// senderIface: the interface handlers use to push notifications to the peer during a call — the result type of the
+// exported accessor GetNotificationSender(ctx) (public API, stable).
+func (c *Ctx) senderIface() *types.Named {
+	for _, fn := range c.P.LibFns {
+		if fn.Name() != "GetNotificationSender" || fn.Signature.Recv() != nil || fn.Signature.Results().Len() == 0 {
+			continue
+		}
+		if n, ok := fn.Signature.Results().At(0).Type().(*types.Named); ok {
+			if _, isI := n.Underlying().(*types.Interface); isI {
+				return n
+			}
+		}
+	}
+	return nil
+}
+
+// transportIface: the interface type of the member through which the Connector implementers talk to the wire: a
+// library-declared interface, implemented by at least two library structs, held in a field of a Connector implementer.
+func (c *Ctx) transportIface() *types.Named {
+	conn := c.P.RootNamed("Connector")
+	if conn == nil {
+		return nil
+	}
+	for _, T := range c.P.Implementers(conn.Underlying().(*types.Interface)) {
+		st, ok := T.Underlying().(*types.Struct)
+		if !ok {
+			continue
+		}
+		for i := 0; i < st.NumFields(); i++ {
+			n, ok := st.Field(i).Type().(*types.Named)
+			if !ok || !ir.InLibrary(n) {
+				continue
+			}
+			it, ok := n.Underlying().(*types.Interface)
+			if !ok || it.NumMethods() < 3 {
+				continue
+			}
+			if ifaceMethodTaking(it, "*mcp.JSONRPCRequest") != "" && len(c.P.Implementers(it)) >= 2 {
+				return n
+			}
+		}
+	}
+	return nil
+}
+
+// transportCloseMethod: the transport method without parameters returning only an error that the Connector's
+// exported Close reaches.
+func (c *Ctx) transportCloseMethod(tr *types.Named) string {
+	it := tr.Underlying().(*types.Interface)
+	cands := map[string]bool{}
+	for i := 0; i < it.NumMethods(); i++ {
+		sig := it.Method(i).Type().(*types.Signature)
+		if sig.Params().Len() == 0 && sig.Results().Len() == 1 && ir.TypeStr(sig.Results().At(0).Type()) == "error" {
+			cands[it.Method(i).Name()] = true
+		}
+	}
+	conn := c.P.RootNamed("Connector")
+	if conn == nil {
+		return ""
+	}
+	found := ""
+	for _, T := range c.P.Implementers(conn.Underlying().(*types.Interface)) {
+		cl := c.P.Method(T, "Close")
+		if cl == nil {
+			continue
+		}
+		for f := range c.ReachSync(cl) {
+			ir.EachCall(f, func(call ssa.CallInstruction) {
+				cc := call.Common()
+				if cc.IsInvoke() && cands[cc.Method.Name()] && types.Identical(cc.Value.Type(), tr) {
+					found = cc.Method.Name()
+				}
+			})
+		}
+	}
+	return found
+}
